@@ -166,7 +166,37 @@ def case(gen):
 GENS = [gen_dot, gen_dot_three_depths, gen_cart, gen_dot_over_cart, gen_cart_over_dot, gen_cart_depth2]
 
 
+def mixed_port_case():
+    """a dot product in which ONE port carries a tag and an ancestor of it (0 and 0.1 on port a).  The statement prescribes one combination
+    per deepest tag and order invariance; which of the port's two candidates goes into the combination of 0.1 depends on the arrival order
+    on the unchanged tree (recorded finding KF-C02-tag-and-ancestor-on-one-port).  Everything else about the output — the tags, the
+    other ports' values, the number of combinations — must not depend on the order."""
+    leaf_idx = rng.sample(INDICES, 2)
+    own, other = f"0.{leaf_idx[0]}", f"0.{leaf_idx[1]}"
+    arrivals = [("a", "0"), ("a", own), ("b", own)] + ([("b", other)] if rng.random() < 0.6 else [])
+    tree = ("dot", ["a", "b"])
+    raw, norm = set(), set()
+    for order in itertools.permutations(arrivals):
+        try:
+            got = asyncio.run(run(tree, order))
+        except Exception as e:  # noqa
+            return {"failure": f"the combinator raised {type(e).__name__}: {e}", "combinator": name_of(tree), "order": " ".join(f"{p}:{t}" for p, t in order)}
+        raw.add(tuple(sorted(got.items())))
+        norm.add(tuple(sorted(Counter(tuple((p, t, "a@<0 or own>" if (p == "a" and t == own) else v) for (p, t, v) in combo) for combo in got.elements()).items())))
+    want = Counter([(("a", own, "a@<0 or own>"), ("b", own, f"b@{own}"))] + ([(("a", other, "a@0"), ("b", other, f"b@{other}"))] if len(arrivals) == 4 else []))
+    if len(norm) != 1 or dict(next(iter(norm))) != dict(want):
+        return {"failure": "a dot product with a tag and its ancestor on one port: the combinations (apart from which of the two candidates is taken) depend on the order or are "
+                "not one per deepest tag", "arrivals": arrivals, "outcomes": [list(x) for x in list(norm)[:3]]}
+    if len(raw) > 1:
+        KNOWN.add("KF-C02-tag-and-ancestor-on-one-port")
+    return None
+
+
 def search(n):
+    for _ in range(3):
+        bad = mixed_port_case()
+        if bad:
+            return bad
     for k in range(n):
         bad = case(GENS[k % len(GENS)])
         if bad:
